@@ -428,6 +428,48 @@ class Sched:
         self.written += lines
         return {"lines": lines}
 
+    def applicable(self, t, w):
+        if w is None or w < 1 or w > len(self.procs):
+            return False
+        p = self.procs[w - 1]
+        if t in ("WPut", "WSentinel"):
+            return p.state in ("run", "failing") and p.pending is not None and p.pending[0] == "put" and (t == "WSentinel") == (p.pending[1] is None)
+        if t == "WFlush":
+            return self.alive(p) and bool(p.buf) and len(self.pipe) < self.cap
+        if t == "WExit":
+            return p.state == "done" and not p.buf and p.pending == ("returned",)
+        if t == "WKill":
+            return self.alive(p)
+        if t == "WCrash":
+            return p.state == "run" and p.pending is not None and p.pending[0] == "put"
+        if t == "WFailExit":
+            return p.state == "failing" and not p.buf and p.pending is not None and p.pending[0] == "raised"
+        return False
+
+    def exit_join(self):
+        """What happens when the parent's main thread ends while workers are still running: multiprocessing's exit
+        handler terminates the daemonic children and JOINS the others. Nobody reads the pipe any more, so a worker
+        exits only if everything it still has to send fits into the pipe. Returns None, or why the process hangs."""
+        for _ in range(100000):
+            live = [p for p in self.procs if self.alive(p)]
+            if not live:
+                return None
+            n = 0
+            for p in live:
+                if p.daemon:
+                    self.do("WKill", p.w)
+                    self.faults -= 1
+                    n += 1
+                    continue
+                for t in ("WSentinel", "WPut", "WFlush", "WExit", "WFailExit"):
+                    if self.applicable(t, p.w):
+                        self.do(t, p.w)
+                        n += 1
+                        break
+            if n == 0:
+                return "the program ends while worker(s) %s are alive: the exit handler joins them, but with nobody reading the queue they can never flush what they still have to send" % [p.w for p in live]
+        return "exit-time join does not settle"
+
     def observe_end(self):
         k, obj = self.next_call()
         if k != "end":
@@ -576,23 +618,7 @@ def run_schedule(argv, cap, C, labels, max_idle_calls=400):
     hang = None
     diverged = None
 
-    def applicable(t, w):
-        if w is None or w < 1 or w > len(s.procs):
-            return False
-        p = s.procs[w - 1]
-        if t in ("WPut", "WSentinel"):
-            return p.state in ("run", "failing") and p.pending is not None and p.pending[0] == "put" and (t == "WSentinel") == (p.pending[1] is None)
-        if t == "WFlush":
-            return s.alive(p) and bool(p.buf) and len(s.pipe) < s.cap
-        if t == "WExit":
-            return p.state == "done" and not p.buf and p.pending == ("returned",)
-        if t == "WKill":
-            return s.alive(p)
-        if t == "WCrash":
-            return p.state == "run" and p.pending is not None and p.pending[0] == "put"
-        if t == "WFailExit":
-            return p.state == "failing" and not p.buf and p.pending is not None and p.pending[0] == "raised"
-        return False
+    applicable = s.applicable
 
     def env_from_schedule():
         nonlocal idx
@@ -634,6 +660,9 @@ def run_schedule(argv, cap, C, labels, max_idle_calls=400):
             k, obj = s.next_call()
             if k == "end":
                 s.end = obj
+                hang = s.exit_join()
+                if hang:
+                    s.end = None
                 break
             before = (len(s.pipe), tuple(p.state for p in s.procs), len(s.written))
             if k == "start":
